@@ -661,4 +661,6 @@ WITNESSES = [
      "old": "\tnew_group->status = RTR_MGR_CLOSED;\n\n\terr_code = rtr_mgr_init_sockets(new_group,", "new": "\tnew_group->status = RTR_MGR_CLOSED;\n\tconfig->len++;\n\n\terr_code = rtr_mgr_init_sockets(new_group,"},
     {"id": "C15.w-established-means-synced", "rule": "C15.R6", "file": MG,
      "old": "\t\tif (group_node->group->status == RTR_MGR_ESTABLISHED) {", "new": "\t\tif (rtr_mgr_config_status_is_synced(group_node->group)) {"},
+    {"id": "C15.w-stop-asks-the-state-setter-for-closed", "rule": "C15.R6", "file": "rtrlib/rtr/rtr.c",
+     "old": "\t\trtr_socket->thread_id = 0;\n\t\trtr_socket->state = RTR_CLOSED;", "new": "\t\trtr_socket->thread_id = 0;\n\t\trtr_change_socket_state(rtr_socket, RTR_CLOSED);"},
 ]
